@@ -37,6 +37,13 @@ def core(ctx):
         yield {"k": "popcount", "w": w, "tables": None}
     yield {"k": "ha"}
     yield {"k": "fa"}
+    big_t = [(0x9E3779B97F4A7C15 * (i + 1)) & ((1 << 64) - 1) for i in range(140)]
+    yield {"k": "mux", "w": 257, "tables": big_t}
+    yield {"k": "adder", "w": 70, "cin": True, "cout": True, "tables": big_t}
+    for w in (63, 64, 65, 66, 100, 128, 129, 200):
+        for lend in (False, True):
+            vals = [0, 1, (1 << w) - 1, 1 << (w - 1), (1 << 64) % (1 << w), ((1 << 64) + 5) % (1 << w), (0xDEADBEEFCAFEBABE1234567 * 3) % (1 << w)]
+            yield {"k": "bin", "w": w, "lend": lend, "vals": vals}
     # the same block requested again after the first copy was modified by its owner
     for w in (3, 2, 3, 5, 5):
         yield {"k": "adder", "w": w, "cin": False, "cout": w != 3, "tables": None}
@@ -83,7 +90,7 @@ def strategy(ctx):
             max_size=50,
         ),
     )
-    bn = st.integers(1, 64).flatmap(
+    bn = st.integers(1, 160).flatmap(
         lambda w: st.builds(
             lambda lend, vals: {"k": "bin", "w": w, "lend": lend, "vals": vals},
             st.booleans(),
